@@ -75,13 +75,15 @@ class StateProp:
         mkey = (fn.key, in_tok, ())
         return self.pairs.get(mkey) or {(t, "?") for t in out}
 
-    def _ret_class(self, expr, toks, last_call, last_rets):
+    def _ret_class(self, expr, toks, last_call, last_rets, var_rets=None):
         """return class per token for `return expr;`"""
         res = {}
         k = expr.get("k") if expr is not None else None
         for t in toks:
             if expr is None:
                 res[t] = {"?"}
+            elif k == "DeclRefExpr" and var_rets and expr["ref"].get("decl") in var_rets:
+                res[t] = set(var_rets[expr["ref"]["decl"]].get(t, {"?"}))
             elif k == "IntegerLiteral":
                 res[t] = {0 if expr.get("v") == 0 else "nz"}
             elif last_call is not None and expr.get("id") == last_call:
@@ -116,6 +118,7 @@ class StateProp:
         work = [cfg.entry]
         exit_toks = set()
         exit_pairs = set()
+        var_rets = {}      # local decl -> {token: return classes} for `r = handler(..)`
         callees = self.calls_seen.setdefault(mkey, set())
         iterations = 0
         while work:
@@ -133,14 +136,27 @@ class StateProp:
                 if n is None:
                     continue
                 k = n.get("k")
+                if k == "DeclStmt" and last_call is not None:
+                    for d in n.get("decls", []):
+                        init = d.get("init")
+                        if init is not None and init.get("id") == last_call and "decl" in d:
+                            dst = var_rets.setdefault(d["decl"], {})
+                            for t, rs in last_rets.items():
+                                dst.setdefault(t, set()).update(rs)
+                    continue
                 if k == "ReturnStmt":
-                    rc = self._ret_class((n.get("c") or [None])[0], toks, last_call, last_rets)
+                    rc = self._ret_class((n.get("c") or [None])[0], toks, last_call, last_rets, var_rets)
                     for t, rs in rc.items():
                         for r in rs:
                             exit_pairs.add((t, r))
                     continue
                 if k == "BinaryOperator" and n.get("op") == "=":
                     lhs, rhs = n["c"]
+                    if last_call is not None and rhs.get("id") == last_call and lhs.get("k") == "DeclRefExpr" \
+                            and "decl" in lhs["ref"]:
+                        dst = var_rets.setdefault(lhs["ref"]["decl"], {})
+                        for t, rs in last_rets.items():
+                            dst.setdefault(t, set()).update(rs)
                     if self.is_state(lhs):
                         v = _const_of(rhs)
                         if v is None:
@@ -186,16 +202,35 @@ class StateProp:
                     exit_toks |= toks
                 continue
             edges = [(s, toks) for s in succs]
-            if blk.get("termK") == "IfStmt" and blk.get("cond") is not None and last_call is not None:
+            if blk.get("termK") == "IfStmt" and blk.get("cond") is not None and (last_call is not None or var_rets):
                 cond = nodes.get(blk["cond"])
                 neg = False
-                while cond is not None and cond.get("k") == "UnaryOperator" and cond.get("op") == "!":
-                    neg = not neg
-                    cond = (cond.get("c") or [None])[0]
+                for _ in range(6):
+                    if cond is None:
+                        break
+                    if cond.get("k") == "UnaryOperator" and cond.get("op") == "!":
+                        neg = not neg
+                        cond = (cond.get("c") or [None])[0]
+                    elif cond.get("k") == "BinaryOperator" and cond.get("op") in ("!=", "==") \
+                            and len(cond.get("c") or []) == 2:
+                        a, b = cond["c"]
+                        zero = [x for x in (a, b) if x.get("k") == "IntegerLiteral" and x.get("v") == 0]
+                        if len(zero) != 1:
+                            break
+                        if cond["op"] == "==":
+                            neg = not neg
+                        cond = b if zero[0] is a else a
+                    else:
+                        break
                 raw = list(blk.get("succ", []))
-                if cond is not None and cond.get("id") == last_call and len(raw) == 2:
-                    tt = {t for t in toks if last_rets.get(t, {"?"}) & {"nz", "?"}}
-                    ff = {t for t in toks if last_rets.get(t, {"?"}) & {0, "?"}}
+                rets_src = None
+                if cond is not None and last_call is not None and cond.get("id") == last_call:
+                    rets_src = last_rets
+                elif cond is not None and cond.get("k") == "DeclRefExpr" and cond["ref"].get("decl") in var_rets:
+                    rets_src = var_rets[cond["ref"]["decl"]]
+                if rets_src is not None and len(raw) == 2:
+                    tt = {t for t in toks if rets_src.get(t, {"?"}) & {"nz", "?"}}
+                    ff = {t for t in toks if rets_src.get(t, {"?"}) & {0, "?"}}
                     if neg:
                         tt, ff = ff, tt
                     edges = []
